@@ -77,6 +77,10 @@ def cases(tier, seed):
     for k in range(60 if tier == "quick" else 500):
         out.append({"kind": "stop", "cls": "stop", "idx": idx, "seed": seed, "maxd": maxd})
         idx += 1
+    # tolerance placed INSIDE the window between the two residuals of one iterate (see _stop, "tuned")
+    for k in range(36 if tier == "quick" else 300):
+        out.append({"kind": "stop", "cls": "stop_tuned_tolerance", "idx": idx, "seed": seed, "maxd": maxd, "tuned": True})
+        idx += 1
     # long runs on ill-conditioned full-rank input (enough iterations for the smallest singular directions to converge)
     for k in range(12 if tier == "quick" else 96):
         out.append({"kind": "longrun", "cls": "longrun_ill_conditioned", "idx": idx, "seed": seed, "maxd": maxd})
@@ -340,6 +344,31 @@ def _stop(spec, ctx, R):
     tol = float(rng.choice([1e-4, 1e-6, 1e-8]))
     which = ["damped_res", "damped_cov", "third"][spec["idx"] % 3]
     gamma = float(rng.choice(GAMMAS))
+    if spec.get("tuned"):
+        # The tolerance is TUNED to the run: with the spectral model t_k of this matrix, pick an iterate k* whose distance to A^+ is still
+        # 1e-2..1e-7 and set tol = 2 ||X AX - X||_F(k*) (the OTHER Penrose residual).  For s_min > 1 that lies below ||A X A - A||_F(k*), so
+        # the documented criterion does not stop there; a stop decided on any residual that scales like 1/s instead of s does, and returns an
+        # iterate outside tol / s_min^2.  (Fixed tolerances almost never fall into this window: the third-order map cubes the error per step.)
+        which = ["third", "damped_res"][spec["idx"] % 2]
+        r = N
+        smin = float(rng.choice([3.0, 5.0, 8.0]))
+        s = np.geomspace(kap, 1.0, r) * smin if r > 1 else np.array([smin])
+        A, U, V = refq.with_singular_values(rng, m, n, s)
+        Ap = refq.matmul(V[:, :r] * (1.0 / s)[None, :], refq.herm(U[:, :r]))
+        t = s * s / float(np.sum(s * s))
+        tol = None
+        for k in range(400):
+            dist = float(np.sqrt(np.sum(((t - 1.0) / s) ** 2)))
+            xax = float(np.sqrt(np.sum((t * (t - 1.0) / s) ** 2)))
+            axa = float(np.sqrt(np.sum((s * (t - 1.0)) ** 2)))
+            if 1e-7 <= dist <= 1e-2 and xax > 0 and 2.0 * xax < axa and dist > 2.0 * (2.0 * xax) / s[-1] ** 2:
+                tol = 2.0 * xax
+                break
+            t = (1.0 - (1.0 - t) ** 3) if which == "third" else t * (1.0 + gamma * (1.0 - t))
+        if tol is None:
+            ctx.skip("stop_accuracy", "no iterate of the model falls into the tuned-tolerance window")
+            return
+        ctx.hit("stop:tolerance_tuned_between_the_two_residuals")
     cap = 400
     if which == "third":
         sol = S.HigherOrderNewtonSchulzPseudoinverse(max_iter=cap, tol=tol)
